@@ -79,11 +79,16 @@ class Register:
                     raise JaqalError(
                         f"Cannot slice parameter {alias_from.name} of non-register kind {alias_from.kind}."
                     )
-            elif alias_from.size is not None and not isinstance(
-                alias_from.size, AnnotatedValue
-            ):
-                if alias_slice.stop > alias_from.size:
+            else:
+                if alias_slice.start is not None and alias_slice.start < 0:
                     raise JaqalError("Index out of range.")
+                if alias_slice.step is not None and alias_slice.step < 1:
+                    raise JaqalError("Invalid slice step.")
+                if alias_from.size is not None and not isinstance(
+                    alias_from.size, AnnotatedValue
+                ):
+                    if alias_slice.stop > alias_from.size:
+                        raise JaqalError("Index out of range.")
 
     def __hash__(self):
         return hash((self.__class__, self._name, self._size))
@@ -210,7 +215,7 @@ class Register:
         while isinstance(size, AnnotatedValue):
             # The size of a fundamental register may be a let constant
             size = size.resolve_value(context)
-        if size is not None and idx >= size:
+        if idx < 0 or (size is not None and idx >= size):
             raise JaqalError("Index out of range.")
         if self.fundamental:
             return (self, idx)
@@ -290,6 +295,8 @@ class NamedQubit:
                     f"Cannot slice parameter {alias_from.name} of non-register kind {alias_from.kind}."
                 )
         else:
+            if alias_index < 0:
+                raise JaqalError("Index out of range.")
             try:
                 from_size = int(alias_from.size)
             except JaqalError:
